@@ -321,3 +321,96 @@ Proof.
   rewrite (IH H2). destruct (digit_not_fancy x H1) as [-> _]. reflexivity.
 Qed.
 
+
+Lemma uint_str_nonnil u : u <> Decimal.Nil -> uint_str u <> [].
+Proof. destruct u; cbn; intros H; try discriminate. contradiction. Qed.
+
+Lemma py_int_digits s u : s <> [] -> forallb is_digit s = true -> str_uint s = Some u ->
+  py_int s = Ok (Z.of_int (Decimal.Pos u)).
+Proof.
+  intros Hne Hd Hu. unfold py_int. rewrite (digits_not_fancy s Hd).
+  destruct s as [|c r]; [contradiction|]. cbn [forallb] in Hd. apply andb_true_iff in Hd.
+  destruct (digit_not_fancy c (proj1 Hd)) as [_ [E45 [E43 _]]]. rewrite E45, E43. rewrite Hu. reflexivity.
+Qed.
+
+Lemma py_int_neg_digits s u : s <> [] -> forallb is_digit s = true -> str_uint s = Some u ->
+  py_int (45 :: s) = Ok (Z.of_int (Decimal.Neg u)).
+Proof.
+  intros Hne Hd Hu. unfold py_int. cbn [existsb]. rewrite (digits_not_fancy s Hd).
+  change (int_fancy 45) with false. cbn [orb]. change (45 =? 45) with true. cbv iota beta.
+  destruct s as [|c r]; [contradiction|]. rewrite Hu. reflexivity.
+Qed.
+
+(* int(str(z)) = z for every integer *)
+Lemma py_int_dec_Z z : py_int (dec_Z z) = Ok z.
+Proof.
+  destruct z as [|p|p].
+  - vm_compute. reflexivity.
+  - unfold dec_Z. change (Z.to_int (Z.pos p)) with (Decimal.Pos (Pos.to_uint p)). cbv iota beta.
+    rewrite (py_int_digits _ (Pos.to_uint p)).
+    + f_equal. exact (DecimalZ.of_to (Z.pos p)).
+    + apply uint_str_nonnil, DecimalPos.Unsigned.to_uint_nonnil.
+    + apply uint_str_digits.
+    + apply str_uint_uint_str.
+  - unfold dec_Z. change (Z.to_int (Z.neg p)) with (Decimal.Neg (Pos.to_uint p)). cbv iota beta.
+    rewrite (py_int_neg_digits _ (Pos.to_uint p)).
+    + f_equal. exact (DecimalZ.of_to (Z.neg p)).
+    + apply uint_str_nonnil, DecimalPos.Unsigned.to_uint_nonnil.
+    + apply uint_str_digits.
+    + apply str_uint_uint_str.
+Qed.
+
+Lemma dec_Z_no_sep z : no_sep (dec_Z z) = true.
+Proof.
+  assert (D : forall u c, is_digit c = false -> mem_chr c (uint_str u) = false)
+    by (intros u c Hc; apply digits_no; [apply uint_str_digits|exact Hc]).
+  unfold no_sep, dec_Z. destruct (Z.to_int z) as [u|u]; cbn [mem_chr];
+    rewrite !D by reflexivity; reflexivity.
+Qed.
+
+(* every integer value of an integer part is in the domain *)
+Lemma val_ok_int z : val_ok TInt (RInt z) = true.
+Proof.
+  unfold val_ok. cbn [enc_val canon_val dec_val]. rewrite dec_Z_no_sep, py_int_dec_Z. cbn [bind rv_eqb].
+  rewrite Z.eqb_refl, seqb_refl. reflexivity.
+Qed.
+
+(* every frequency name in any letter case *)
+Lemma freq_table_ok : forallb (fun f => no_sep f && is_upper_str f) frequency_names = true.
+Proof. vm_compute. reflexivity. Qed.
+
+Lemma val_ok_freq s : mem_str (upper s) frequency_names = true -> val_ok TFreq (RStr s) = true.
+Proof.
+  intros H. unfold val_ok. cbn [enc_val canon_val dec_val]. unfold vfrequency.
+  repeat (rewrite ?upper_idem, ?H; cbn [bind rv_eqb]).
+  rewrite !seqb_refl.
+  apply mem_str_In in H. pose proof (proj1 (forallb_forall _ _) freq_table_ok _ H) as Ht.
+  apply andb_true_iff in Ht. rewrite (proj1 Ht). reflexivity.
+Qed.
+
+(* every SKIP value of the generated enumeration *)
+Lemma skip_table_ok : forallb (fun s => val_ok TSkip (RStr s)) skip_values = true.
+Proof. vm_compute. reflexivity. Qed.
+
+Lemma val_ok_skip s : mem_str s skip_values = true -> val_ok TSkip (RStr s) = true.
+Proof. intros H. apply mem_str_In in H. exact (proj1 (forallb_forall _ _) skip_table_ok _ H). Qed.
+
+(* every RFC weekdaynum ([[+/-] 1..53] SU..SA), as a finite table over the generated weekday names *)
+Definition all_weekdaynums : list str :=
+  flat_map (fun d => d :: flat_map (fun n => [dec_Z (Z.of_nat n) ++ d; 43 :: dec_Z (Z.of_nat n) ++ d; 45 :: dec_Z (Z.of_nat n) ++ d])
+                                   (seq 1 53)) (map fst weekday_table).
+
+Lemma weekdaynum_table_ok :
+  forallb (fun s => val_ok TWeekday (RStr s) && g_weekdaynum s) all_weekdaynums = true
+  /\ List.length all_weekdaynums = 1120%nat.
+Proof. vm_compute. split; reflexivity. Qed.
+
+(* generated names agree with the RFC lists the recogniser is written from *)
+Lemma tables_match_rfc :
+  forallb (fun f => mem_str f rfc_freqs) frequency_names = true
+  /\ forallb (fun f => mem_str f frequency_names) rfc_freqs = true
+  /\ forallb (fun s => mem_str s rfc_skips) skip_values = true
+  /\ forallb (fun s => mem_str s skip_values) rfc_skips = true
+  /\ forallb (fun d => mem_str d rfc_weekdays) (map fst weekday_table) = true
+  /\ forallb (fun d => mem_str d (map fst weekday_table)) rfc_weekdays = true.
+Proof. vm_compute. repeat split; reflexivity. Qed.
